@@ -32,13 +32,17 @@ fn one_handle_op(max: u32) -> BoxedStrategy<Op> {
         2 => n.clone().prop_map(|n| Op::HReadExact { slot: 0, n }),
         4 => any::<u16>().prop_map(|frac| Op::HFillConsume { slot: 0, frac }),
         6 => data.clone().prop_map(|data| Op::HWrite { slot: 0, data }),
-        3 => data.prop_map(|data| Op::HWriteAll { slot: 0, data }),
+        3 => data.clone().prop_map(|data| Op::HWriteAll { slot: 0, data }),
         8 => seek_strategy().prop_map(|s| Op::HSeek { slot: 0, s }),
         3 => len_spec(max).prop_map(|len| Op::HSetLen { slot: 0, len }),
         2 => Just(Op::HFlush { slot: 0 }),
         1 => Just(Op::HLen { slot: 0 }),
         2 => Just(Op::HPos { slot: 0 }),
         1 => Just(Op::HReadToEnd { slot: 0 }),
+        2 => (data.clone(), any::<u16>(), any::<u16>()).prop_map(|(data, a, b)| Op::HWriteV { slot: 0, data, a, b }),
+        1 => (n.clone(), n.clone()).prop_map(|(n1, n2)| Op::HReadV { slot: 0, n1, n2 }),
+        1 => any::<u8>().prop_map(|byte| Op::HReadUntil { slot: 0, byte }),
+        1 => Just(Op::HRewind { slot: 0 }),
         1 => Just(Op::HClose { slot: 0 }),
     ]
     .boxed()
